@@ -13,7 +13,6 @@ Gate.tla   (accesslist, views, autoWire/SubPipeline, Queryer) : TLC exhaustive o
 """
 import json
 import os
-import random
 
 import vf
 
@@ -26,8 +25,11 @@ def ipset_cases_emitted(ctx, cfg, dims, placements, tag):
     """Cases.tla prints one JSON case per ordered list; replay them all."""
     r = ctx.tlc("IpSet", "Cases.tla", cfg, workers=2, timeout=600, heap="4g", tag="emit", count=False)
     cases = [c for c in r.printed() if isinstance(c, dict) and "list" in c]
-    if len(cases) < 100:
-        raise vf.MachineryError("Cases.tla emitted only %d cases" % len(cases))
+    w6 = dims["hb"] + dims["lb"]
+    n = 2 ** dims["v4"] * (dims["v4"] + 1) + 2 ** w6 * (w6 + 1) + 1     # entries: IPv4, IPv6, the unparsable one
+    if len(cases) != 1 + n + n * n:
+        raise vf.MachineryError("Cases.tla emitted %d cases, expected %d ordered lists of <= 2 of %d entries"
+                                % (len(cases), 1 + n + n * n, n))
     ctx.log("IpSet %s: %d emitted cases" % (cfg, len(cases)))
     return ipset_replay(ctx, cases, dims, placements, tag)
 
@@ -56,17 +58,10 @@ def ipset_cases_simulated(ctx, cfg, dims, num, depth, placements, tag):
     return ipset_replay(ctx, cases, dims, placements, tag)
 
 
-def replay_dir():
-    # vf.violation writes replay files under /verif/evidence/replays whatever VERIF_EVIDENCE_DIR says;
-    # concurrent runs of other checks have been seen to remove that directory
-    os.makedirs(os.path.join(vf.VERIF, "evidence", "replays"), exist_ok=True)
-
-
 def ipset_replay(ctx, cases, dims, placements, tag):
     inp = dict(dims)
     inp.update({"cases": cases, "placements": placements, "tag": tag})
     res = ctx.go_driver("./c17", "TestIpSetReplay", inp, name="ipset_" + tag, timeout=1200)
-    replay_dir()
     ctx.take_driver_result(res, "[IpSet %s] " % tag)
     cnt = res.get("counters", {})
     ctx.cov["replay"]["ipset_" + tag] = {
@@ -87,12 +82,14 @@ def ipset(ctx, thorough):
     #   quick:    W=4 (2+2-bit words, 2-bit IPv4), <= 3 entries up to order, host bits all clear / all set;
     #             every ORDERED list of <= 2 entries with every Query transition
     #   thorough: + every ordered list of <= 3 entries with any host bits (W=4),
-    #             + W=5 (2+3-bit words) <= 3 entries up to order
+    #             + W=5 (2+3-bit words) <= 3 entries up to order, host bits all clear / all set
     ctx.tlc("IpSet", "IpSet.tla", "MC_W4_L3_quick.cfg", workers=8, timeout=900, heap="8g")
     ctx.tlc("IpSet", "IpSet.tla", "MC_W4_L2_query.cfg", workers=4, timeout=900, heap="8g")
     if thorough:
         ctx.tlc("IpSet", "IpSet.tla", "MC_W4_L3_ordered.cfg", workers=8, timeout=2400, heap="12g")
-        ctx.tlc("IpSet", "IpSet.tla", "MC_W5_L3_canon.cfg", workers=8, timeout=3000, heap="16g")
+        ctx.tlc("IpSet", "IpSet.tla", "MC_W5_L3_edge.cfg", workers=8, timeout=2400, heap="12g")
+        if os.environ.get("VERIF_C17_DEEP"):   # ~3e6 states, every host-bit pattern at W=5; not part of the tier budget
+            ctx.tlc("IpSet", "IpSet.tla", "MC_W5_L3_canon.cfg", workers=8, timeout=7200, heap="16g")
     # spec -> code
     ipset_cases_emitted(ctx, "Cases_W4_L2.cfg", W4, 4 if thorough else 2, "W4L2")
     ipset_cases_simulated(ctx, "Sim_W4_L3.cfg", W4, 4000 if thorough else 700, 9, 6 if thorough else 3, "W4L3sim")
@@ -112,12 +109,20 @@ def gate_model(ctx, cfg, timeout):
     cases = [c for c in r.printed() if isinstance(c, dict) and "req" in c and "acl" in c]
     if len(cases) < 100:
         raise vf.MachineryError("GateCases %s emitted only %d terminal states" % (cfg, len(cases)))
+    per_cfg = {}
+    for c in cases:
+        k = json.dumps([sorted(c["acl"]), c["views"]], sort_keys=True)
+        per_cfg[k] = per_cfg.get(k, 0) + 1
+    if len(set(per_cfg.values())) != 1:
+        raise vf.MachineryError("GateCases %s: terminal states per configuration differ (%s): emitted lines lost?"
+                                % (cfg, sorted(set(per_cfg.values()))))
     kinds = {c["req"]["kind"] for c in cases}
     denied = sum(1 for c in cases if c["req"]["kind"] == "client" and not c["allowed"])
     viewed = sum(1 for c in cases if c["written"] == "views")
     if kinds != {"client", "internal"} or denied == 0 or viewed == 0:
         raise vf.MachineryError("GateCases %s is vacuous: kinds=%s denied=%d view answers=%d" % (cfg, kinds, denied, viewed))
-    ctx.log("Gate %s: %d terminal states (%d denied clients, %d view answers)" % (cfg, len(cases), denied, viewed))
+    ctx.log("Gate %s: %d configurations x %d terminal states (%d denied clients, %d view answers)" % (
+        cfg, len(per_cfg), len(cases) // len(per_cfg), denied, viewed))
     return cases
 
 
@@ -127,7 +132,6 @@ def gate_replay(ctx, cases, tag, variants, full_configs):
     info = {}
     for test, name in (("TestGateHandlers", "handlers"), ("TestGateDefaultChain", "default")):
         res = ctx.go_driver("./c17", test, inp, name="gate_%s_%s" % (tag, name), timeout=1500)
-        replay_dir()
         ctx.take_driver_result(res, "[Gate %s/%s] " % (tag, name))
         cnt = res.get("counters", {})
         info[name] = {"replays": res["cases"], "counters": cnt, "drift": res["drift"],
@@ -146,10 +150,10 @@ def gate_replay(ctx, cases, tag, variants, full_configs):
 def gate(ctx, thorough):
     if thorough:
         cases = gate_model(ctx, "Gate_full.cfg", 2400)
-        gate_replay(ctx, cases, "full", 1, 400)
+        gate_replay(ctx, cases, "full", 2, 0)      # 0 = every configuration on the default chain
     else:
         cases = gate_model(ctx, "Gate_quick.cfg", 600)
-        gate_replay(ctx, cases, "quick", 1, 60)
+        gate_replay(ctx, cases, "quick", 1, 0)
 
 
 def run(ctx, replay):
@@ -188,7 +192,6 @@ def run_replay(ctx, path):
         res = ctx.go_driver("./c17", "TestGateOne", rp, name="replay_gate", timeout=300)
     else:
         raise vf.MachineryError("unknown replay kind %r" % kind)
-    replay_dir()
     ctx.take_driver_result(res, "[replay] ")
     ctx._distinct.add("replay-file:" + os.path.basename(path))
     ctx.sample({"replayed": os.path.basename(path), "kind": kind, "what": rec.get("what", "")[:300]})
